@@ -562,7 +562,9 @@ class ChainStream(ModelStream):
 
     def cases(self, ctx):
         nm = names()
-        classes = [c for c in nm["classes"] if c != "str_repr"]
+        # str_exp is left out: concatenating digits to "1e999" gives an exponent beyond Decimal's Emax, a string outside
+        # every class of the lattice (decimal.Overflow from babel / sum: recorded as known findings, not modelled)
+        classes = [c for c in nm["classes"] if c not in ("str_repr", "str_exp")]
         rng = ctx.rng_for("chain")
         filters = nm["filters"]
         out = []
